@@ -37,6 +37,14 @@ def search(tier, seed):
             if verdict(impl) != "INC":
                 seen.add(h)
         samples.append("%s: %s -> %s" % (stream, C.show_input(rows[len(rows) // 3][0], 60), verdict(rows[len(rows) // 3][1])))
+    # the same kinds of bytes through the framed client codec, under many chunkings: the codec must not panic either
+    from . import clientlib as L
+    rows = L.run_stream("framed", seed, 12 if tier == "quick" else 150)
+    for sess, obs, ref in rows:
+        total += 1
+        if "PANIC" in obs.split(","):
+            return total, "the framed client codec panicked while decoding:\nread script %s\nobserved %s" % (sess[:700], obs[-300:]), samples, len(seen)
+    samples.append("framed: %d chunked scripts through Framed<MockIo, ImapCodec>, none panicked" % len(rows))
     # nesting 1..20000 at every recursive position, on a 2 MiB thread in a child process, debug and release
     for release in (False, True):
         rows = crash_sweep(release)
@@ -79,7 +87,7 @@ def run(tier, seed, t0):
     C.write_evidence(PROP, tier, seed, t0, obligations=proof["obligations"] + 1, discharged=proof["discharged"] + 1,
                      checker_cmd="tools/rs2coq /repo coq/gen && make -C coq Properties/C01.vo (coqc 8.16.1) + harness parse <6 streams> + harness crash (2 MiB thread, child process, debug+release) vs ocaml/driver parse",
                      evaluations=total + evals, distinct_nontrivial=distinct,
-                     rule="search oracle (implementation only): every input of the streams valid / mutate (token-dictionary and byte mutations, splices, truncations, boundary numerals) / garbage / follow / stability / numeric must yield OK, INC or ERR (panics caught by catch_unwind); the nesting sweep (depths 1..20000 at: nested multiparts, bare '(' runs, message/rfc822 chains, alternating multipart/message, body-extension lists, extension inside multiparts, and non-recursive list positions; BODYSTRUCTURE and BODY) is parsed on a 2 MiB thread in a child process in debug and release builds and the child must survive. distinct_nontrivial = distinct inputs with an accept/reject verdict.",
+                     rule="search oracle (implementation only): every input of the streams valid / mutate (token-dictionary and byte mutations, splices, truncations, boundary numerals) / garbage / follow / stability / numeric must yield OK, INC or ERR (panics caught by catch_unwind); generated streams (with stray line ends, literal-final responses, malformed lines, truncations) through the real Framed<MockIo, ImapCodec> under whole / single-cut / pair / many-cut chunkings must not panic; the nesting sweep (depths 1..20000 at: nested multiparts, bare '(' runs, message/rfc822 chains, alternating multipart/message, body-extension lists, extension inside multiparts, and non-recursive list positions; BODYSTRUCTURE and BODY) is parsed on a 2 MiB thread in a child process in debug and release builds and the child must survive. distinct_nontrivial = distinct inputs with an accept/reject verdict.",
                      samples=samples,
                      extra=dict(theorems=proof["names"], correspondence_cases=evals),
                      assumptions=["partial: the theorem bounds the NUMBER of nested parser calls for all inputs (rank of parse_response, about 210); that this many Rust frames fit a 2 MiB stack is measured by the nesting sweep, not proved",
